@@ -1080,7 +1080,18 @@ public:
   Dom &second() { return m_product.second(); }
 
   bool operator<=(const bool_num_domain_t &other) const override {
-    return m_product <= other.m_product;
+    if (is_bottom()) {
+      return true;
+    }
+    // The tables "boolean implies constraints/booleans" and the set
+    // of unchanged variables restrict which states are described (a
+    // later assume on the boolean uses them), so they take part in
+    // the inclusion test.
+    return m_product <= other.m_product &&
+           m_bool_to_lincsts <= other.m_bool_to_lincsts &&
+           m_bool_to_refcsts <= other.m_bool_to_refcsts &&
+           m_bool_to_bools <= other.m_bool_to_bools &&
+           m_unchanged_vars <= other.m_unchanged_vars;
   }
 
   bool operator==(const bool_num_domain_t &other) const {
